@@ -18,65 +18,69 @@ import (
 func TestVerifC01History(t *testing.T) {
 	rec := vfstat.New("C01History")
 	defer rec.Flush()
+	outer := t
 	rapid.Check(t, func(t *rapid.T) {
-		dir, cleanup := simTempDir()
-		defer cleanup()
-		s := newSimSys(t, dir)
-		big := (os.Getenv("VERIF_TIER") == "thorough" || os.Getenv("VERIF_BIG") != "") && rapid.IntRange(0, 59).Draw(t, "bigBase") <= simEnvInt("VERIF_BIG", 0)
-		bigNext := 0
-		if big {
-			var base *simSys
-			base, bigNext = simBigBase(t)
-			s = base.clone(dir)
-			s.activate()
-		}
-		realStores := !big && simWantReal(rapid.IntRange(0, 9).Draw(t, "realStores"))
-		if realStores {
-			defer simAttachRealStores(s, dir)()
-		}
-		h := &simHist{s: s, opts: simHistOpts{MaxRounds: 8, ClockFaults: true, Faults: true, Existing: big}, nextID: bigNext}
-		err := h.run(t)
-		if err == nil {
-			err = h.finish()
-		} else if h.in != nil {
-			h.in.close()
-		}
-		if err == nil && realStores {
-			err = simCompareRealDir(s, dir)
-		}
-		if err != nil {
-			t.Fatalf("C01 violated: %v\nhistory:\n  %s", err, strings.Join(h.st.Desc, "\n  "))
-		}
-		st := h.st
-		distinctSizes := map[int64]bool{}
-		for _, c := range s.commits {
-			distinctSizes[c.Size] = true
-		}
-		nt := len(distinctSizes) >= 2 && (st.FaultsFired > 0 || st.Crashes > 0 || st.ClockAnoms > 0 || st.TileCross > 0)
-		var cls []string
-		add := func(c bool, name string) {
-			if c {
-				cls = append(cls, name)
+		simInBubble(outer, func() {
+			dir, cleanup := simTempDir()
+			defer cleanup()
+			s := newSimSys(t, dir)
+			big := (os.Getenv("VERIF_TIER") == "thorough" || os.Getenv("VERIF_BIG") != "") && rapid.IntRange(0, 59).Draw(t, "bigBase") <= simEnvInt("VERIF_BIG", 0)
+			bigNext := 0
+			if big {
+				var base *simSys
+				base, bigNext = simBigBase(t)
+				s = base.clone(dir)
+				s.activate()
 			}
-		}
-		add(realStores, "real-LocalBackend+SQLite")
-		add(big, "crosses-65536")
-		add(st.FaultsFired > 0, "fault-fired")
-		add(st.Crashes > 0, "crash")
-		add(st.ClockAnoms > 0, "clock-anomaly")
-		add(st.TileCross > 0, "tile-boundary-crossed")
-		add(st.MultiTile > 0, "multi-tile-round")
-		add(st.EmptyRounds > 0, "empty-round")
-		add(st.FatalRounds > 0, "fatal-round")
-		add(st.LoadFailures > 0, "load-failure")
-		add(len(s.published) >= 2, "published>=2")
-		rec.Add("rounds", int64(st.Rounds))
-		rec.Add("commits", int64(len(s.commits)))
-		rec.Add("publications", int64(len(s.published)))
-		rec.Add("faults-fired", int64(st.FaultsFired))
-		rec.Add("crashes", int64(st.Crashes))
-		rec.Add("restarts", int64(st.Restarts))
-		rec.Add("operations", int64(s.w.opN))
-		rec.CaseSample(fmt.Sprintf("sizes=%v %s", st.Sizes, strings.Join(st.Desc, "; ")), st.Desc, nt, cls...)
+			realStores := !big && simWantReal(rapid.IntRange(0, 9).Draw(t, "realStores"))
+			if realStores {
+				defer simAttachRealStores(s, dir)()
+			}
+			h := &simHist{s: s, opts: simHistOpts{MaxRounds: 8, ClockFaults: true, Faults: true, Existing: big}, nextID: bigNext}
+			err := h.run(t)
+			if err == nil {
+				err = h.finish()
+			} else if h.in != nil {
+				h.in.close()
+			}
+			if err == nil && realStores {
+				err = simCompareRealDir(s, dir)
+			}
+			if err != nil {
+				t.Fatalf("C01 violated: %v\nhistory:\n  %s", err, strings.Join(h.st.Desc, "\n  "))
+			}
+			st := h.st
+			distinctSizes := map[int64]bool{}
+			for _, c := range s.commits {
+				distinctSizes[c.Size] = true
+			}
+			nt := len(distinctSizes) >= 2 && (st.FaultsFired > 0 || st.Crashes > 0 || st.ClockAnoms > 0 || st.TileCross > 0)
+			var cls []string
+			add := func(c bool, name string) {
+				if c {
+					cls = append(cls, name)
+				}
+			}
+			add(realStores, "real-LocalBackend+SQLite")
+			add(big, "crosses-65536")
+			add(st.FaultsFired > 0, "fault-fired")
+			add(st.Crashes > 0, "crash")
+			add(s.w.stalls > 0, "operation-stalled-until-deadline")
+			add(st.ClockAnoms > 0, "clock-anomaly")
+			add(st.TileCross > 0, "tile-boundary-crossed")
+			add(st.MultiTile > 0, "multi-tile-round")
+			add(st.EmptyRounds > 0, "empty-round")
+			add(st.FatalRounds > 0, "fatal-round")
+			add(st.LoadFailures > 0, "load-failure")
+			add(len(s.published) >= 2, "published>=2")
+			rec.Add("rounds", int64(st.Rounds))
+			rec.Add("commits", int64(len(s.commits)))
+			rec.Add("publications", int64(len(s.published)))
+			rec.Add("faults-fired", int64(st.FaultsFired))
+			rec.Add("crashes", int64(st.Crashes))
+			rec.Add("restarts", int64(st.Restarts))
+			rec.Add("operations", int64(s.w.opN))
+			rec.CaseSample(fmt.Sprintf("sizes=%v %s", st.Sizes, strings.Join(st.Desc, "; ")), st.Desc, nt, cls...)
+		})
 	})
 }
